@@ -278,6 +278,46 @@ def acc_C09(w):
 
 
 # =================================================================================================
+# C01 (whole runs: the limits as ACCEPTED, one price per round, the resting side sets it)
+
+
+def acc_C01(w):
+    accepted = {}  # (market, order id) -> (acceptance sequence number, accepted order tuple)
+    n = 0
+    for e in w.ev:
+        if e[0] == "acc":
+            post = e[6]
+            accepted[(post[1], post[0])] = (n, post)
+            n += 1
+        elif e[0] == "round" and e[2]:
+            fills = e[2]
+            V(len(set(l.price for l in fills)) == 1, "C01.one_price", "fills of one matching round carry several prices",
+              "prices=%s" % sorted(set(l.price for l in fills)))
+            for l in fills:
+                b, s_ = accepted.get((e[1], l.buy_order_id)), accepted.get((e[1], l.sell_order_id))
+                V(b is not None and s_ is not None, "C01.pairing", "fill does not pair an accepted buy with an accepted sell of this market")
+                if b[1][5] == LIMIT_ORDER:
+                    V(l.price <= b[1][7], "C01.buy_limit", "fill price above the buyer's limit",
+                      "price=%s, buy order %s accepted with limit %s" % (l.price, l.buy_order_id, b[1][7]))
+                if s_[1][5] == LIMIT_ORDER:
+                    V(l.price >= s_[1][7], "C01.sell_limit", "fill price below the seller's limit",
+                      "price=%s, sell order %s accepted with limit %s" % (l.price, l.sell_order_id, s_[1][7]))
+            l = fills[-1]
+            b, s_ = accepted[(e[1], l.buy_order_id)], accepted[(e[1], l.sell_order_id)]
+            if b[1][5] == LIMIT_ORDER and s_[1][5] == LIMIT_ORDER:
+                first = b if (b[1][2], b[0]) < (s_[1][2], s_[0]) else s_
+                V(l.price == first[1][7], "C01.resting_price",
+                  "round price is not the limit of the earlier-accepted order of the last matched pair",
+                  "price=%s buy accepted #%d at %s, sell accepted #%d at %s" % (l.price, b[0], b[1][7], s_[0], s_[1][7]))
+            elif b[1][5] == LIMIT_ORDER or s_[1][5] == LIMIT_ORDER:
+                lim = b if b[1][5] == LIMIT_ORDER else s_
+                V(l.price == lim[1][7], "C01.limit_side_price",
+                  "round price is not the limit order's price although its counterpart is a market order",
+                  "price=%s limit=%s" % (l.price, lim[1][7]))
+            w.wit.inc("whole_run_rounds_with_fills")
+
+
+# =================================================================================================
 # C10
 
 _REC_TYPES = (OrderLog, CancelLog, ExecutionLog, ExpirationLog)
@@ -428,6 +468,9 @@ def acc_C10(w):
             pending[id(e[1])] = e[1]
             if isinstance(e[1], _BOUNDARY):
                 armed = True
+        elif k == "lwd" and isinstance(e[1], (SessionBeginLog, SessionEndLog, SimulationBeginLog, SimulationEndLog)) and pending:
+            raise Violation("C10.flush", "records written before a session boundary were not delivered by that boundary",
+                            "%d records still pending when the %s record was delivered" % (len(pending), type(e[1]).__name__))
         elif k == "lp":
             pending.pop(id(e[1]), None)
             if not pending:
